@@ -539,7 +539,9 @@ def generate(rng, tier, index):
             # one ConfigLoader instance for the whole sequence of loads, or
             # ZConfig.loadConfig (a new loader per load)
             "reuse_loader": rng.random() < 0.5,
-            "entry": rng.choice(["url", "url", "file", "override"])}
+            "entry": rng.choice(["url", "url", "file", "override"]),
+            # environment: warnings are errors in this process
+            "warnings_error": origin == "sampled" and rng.random() < 0.1}
     top_incs = [s_ for s_ in steps if s_["op"] == "include"
                 and not s_.get("via")]
     if top_incs and rng.random() < 0.5 and not nested:
@@ -674,6 +676,9 @@ def execute(plan):
                   "Ab"):
             os.environ.pop(k, None)
         os.environ.update(env)
+        if plan.get("warnings_error"):
+            w.warnings_as_errors()
+            probe("warnings-are-errors")
         w.begin_op("load-schema")
         so = ops.schema_outcome(
             lambda: ops.load_schema_text(SCHEMA, SCHEMA_URL))
